@@ -47,6 +47,8 @@ type Act struct {
 	parent   *Act
 	returns  []*ssa.Return
 	sends    *[]string
+	loopWrites map[*ssa.BasicBlock]*writeLog
+	frameMemo  *frameInfo
 	callPos  token.Pos
 }
 
@@ -268,7 +270,62 @@ func (a *Act) loopInvs(h *ssa.BasicBlock) []*Clause {
 	return out
 }
 
+// autoInvs are invariants the engine supplies itself: range indices stay >= -1, and the function's frame
+// condition (locations that existed at entry and are not named in modifies keep their entry value).
+func (a *Act) autoInvs(h *ssa.BasicBlock, st *State) [][2]string {
+	var out [][2]string
+	// range index cells written in this loop
+	wl := a.loopWrites[h]
+	if wl == nil {
+		return nil
+	}
+	var cs []*Cell
+	for c := range wl.cells {
+		cs = append(cs, c)
+	}
+	sort.Slice(cs, func(i, j int) bool { return cs[i].ID < cs[j].ID })
+	for _, c := range cs {
+		if c.Name == "rangeindex" {
+			if v, ok := st.cells[c]; ok {
+				out = append(out, [2]string{"rangeindex", "(and (>= " + v.S + " (- 1)) (< " + v.S + " 9223372036854775807))"})
+			}
+		}
+	}
+	top := a
+	if a.top != nil {
+		top = a.top
+	}
+	if top.con == nil || top.con.Trusted || top.con.Opts["frame"] == "off" || top.entry == nil {
+		return out
+	}
+	allowed, anyKey, whole := top.frameAllowed()
+	if whole {
+		return out
+	}
+	for _, k := range sortedKeys(wl.heaps) {
+		if strings.HasPrefix(k, "IT:") || k == "G:chancap" || k == "G:chanclosed" || anyKey[k] {
+			continue
+		}
+		srt := a.vc.heapSorts[k]
+		h0 := a.vc.getHeap(top.entry, k, srt)
+		h1 := a.vc.getHeap(st, k, srt)
+		if h0 == h1 {
+			continue
+		}
+		conds := []string{"(<= (base x) " + top.entry.top + ")"}
+		for _, ad := range allowed[k] {
+			conds = append(conds, not(eq("x", ad)))
+		}
+		out = append(out, [2]string{"frame " + k, fmt.Sprintf("(forall ((x Int)) (! (=> %s (= (select %s x) (select %s x))) :pattern ((select %s x))))", and(conds...), h1, h0, h1)})
+	}
+	return out
+}
+
 func (a *Act) assertInvs(h *ssa.BasicBlock, st *State, kind string) {
+	for _, ai := range a.autoInvs(h, st) {
+		name := fmt.Sprintf("%s/%s loop#%d.auto-%s", a.prefix, kind, a.loopOrd[h], ai[0])
+		a.vc.oblige(name, kind, a.props, a.pos(h.Instrs[0].Pos()), st.guard, ai[1], "engine-supplied invariant: "+ai[0])
+	}
 	for i, c := range a.loopInvs(h) {
 		env := a.specEnv(st)
 		env.loop = h
@@ -287,9 +344,7 @@ func (a *Act) assertInvs(h *ssa.BasicBlock, st *State, kind string) {
 
 func (a *Act) enterLoop(h *ssa.BasicBlock, st *State, ins []edgeIn) {
 	vc := a.vc
-	// 1. invariant holds on entry
-	a.assertInvs(h, st, "inv-entry")
-	// 2. discover written set
+	// 1. discover written set
 	wl := &writeLog{heaps: map[string]bool{}, cells: map[*Cell]bool{}}
 	{
 		saved := a.writeLog
@@ -318,6 +373,19 @@ func (a *Act) enterLoop(h *ssa.BasicBlock, st *State, ins []edgeIn) {
 				saved.all = true
 			}
 		}
+	}
+	if a.loopWrites == nil {
+		a.loopWrites = map[*ssa.BasicBlock]*writeLog{}
+	}
+	for c := range wl.cells {
+		if _, ok := st.cells[c]; !ok {
+			delete(wl.cells, c) // declared inside the loop body
+		}
+	}
+	a.loopWrites[h] = wl
+	// 2. invariant holds on entry
+	if a.vc.quiet == 0 {
+		a.assertInvs(h, st, "inv-entry")
 	}
 	// 3. havoc written state
 	var cs []*Cell
@@ -348,6 +416,9 @@ func (a *Act) enterLoop(h *ssa.BasicBlock, st *State, ins []edgeIn) {
 	st.top = ntop
 	a.doPhis(h, st, ins, true)
 	// 4. assume invariant
+	for _, ai := range a.autoInvs(h, st) {
+		vc.assume(st.guard, ai[1])
+	}
 	for _, c := range a.loopInvs(h) {
 		env := a.specEnv(st)
 		env.loop = h
